@@ -58,8 +58,8 @@ ReadOk(c, ok, fresh, s) == ok => \E f \in s.fabs : f.own = c
 OpOk(op, c, via, cmd, ok, code, fresh, s) ==
   /\ (Which = "C07" /\ op = "Read") => ReadOk(c, ok, fresh, s)
   /\ (Which = "C11" /\ op \in {"Restart", "FactoryReset"}) => ok                     \* a damaged optional cache never prevents start-up
-AfterOp(op, c, via, cmd, ok, code, fresh, idx, s) ==
-  [s EXCEPT !.lastOp = [op |-> op, c |-> c, via |-> via, cmd |-> cmd, ok |-> ok, code |-> code],
+AfterOp(op, c, via, cmd, ok, code, fresh, idx, ms, s) ==
+  [s EXCEPT !.lastOp = [op |-> op, c |-> c, via |-> via, cmd |-> cmd, ok |-> ok, code |-> code, ms |-> ms],
             !.removedIdx = IF op = "Cmd" /\ cmd = "remove" /\ ok /\ code = "OK" THEN idx ELSE 0]
 
 (* --------------------------------------------------------------- State *)
@@ -94,6 +94,11 @@ StateOk(fabrics, sessions, resum, fsArmed, fsFlags, imDead, s) ==
        /\ \A r \in rs : \A f \in fabs : f.idx = r.fab => f.inc = r.inc
        \* OthersUntouched: removing a fabric leaves the sessions of the other fabrics alone
        /\ s.removedIdx # 0 => \A p \in s.sess : (p.fab # s.removedIdx /\ p.mode = "case") => \E x \in ss : x.id = p.id
+       \* OthersUntouched (rollback): when the fail-safe goes idle - by its timer, ArmFailSafe(0), RevokeCommissioning,
+       \* CommissioningComplete - the operational sessions of the fabrics that stay are neither removed nor expired
+       /\ (s.fsArmed /\ ~fsArmed /\ o.op \notin {"Restart", "FactoryReset"})
+            => \A p \in s.sess : (p.mode = "case" /\ ~p.expired /\ \E f \in fabs : f.idx = p.fab /\ f.inc = p.inc)
+                                    => \E x \in ss : x.id = p.id /\ ~x.expired
        \* GoneStaysGone: a fabric is on the node only if it was there before, or its administrator has just commissioned it
        /\ \A f \in fabs : \/ \E g \in s.fabs : g.idx = f.idx /\ g.own = f.own
                           \/ o.op = "Commission" /\ o.c = f.own
@@ -107,7 +112,7 @@ StateOk(fabrics, sessions, resum, fsArmed, fsFlags, imDead, s) ==
        /\ (s.fsArmed /\ ~fsArmed /\ ~(o.op = "Cmd" /\ o.cmd = "complete" /\ o.code = "OK") /\ ~s.dirty /\ o.op # "FactoryReset")
             => Cfg(fabs) = {f \in s.snap : f.idx \notin (s.gone \cup (IF s.removedIdx # 0 THEN {s.removedIdx} ELSE {}))}
        \* the fail-safe cannot stay armed past its time, and the node keeps serving
-       /\ (o.op = "Wait" /\ s.fsArmed) => ~fsArmed
+       /\ (o.op = "Wait" /\ o.ms >= 61000 /\ s.fsArmed) => ~fsArmed
        /\ ~imDead
   /\ Which = "C11" =>
        \* after a restart the node has every change that was confirmed as committed, and nothing else
